@@ -250,6 +250,20 @@ class Check:
             for n, b in zip(names, blocks):
                 self.assumptions_report[n] = b
                 self.oblige(f"theorem {n}", "theorem", True, "; ".join(b))
+        if self.tier == "thorough" and allok and os.environ.get("VERIF_NO_COQCHK") != "1":
+            # independent re-check of the compiled property files and everything they depend on
+            for f in props_files:
+                r = subprocess.run(["timeout", "2400", "coqchk", "-silent", "-o", "-Q", COQ, "NessaiV", f"NessaiV.Props.{f}"],
+                                   capture_output=True, text=True, cwd=COQ)
+                out = r.stdout + r.stderr
+                summ = out[out.find("CONTEXT SUMMARY"):] if "CONTEXT SUMMARY" in out else out[-1500:]
+                axioms = re.findall(r"^\s{4}([A-Za-z_][A-Za-z0-9_.']*)\s*$", summ.split("* Constants/Inductives relying on type-in-type")[0], re.M)
+                bad_sections = [h for h in ("relying on type-in-type", "relying on unsafe (co)fixpoints", "whose positivity is assumed")
+                                if h in summ and "<none>" not in summ.split(h)[1].split("*")[0]]
+                ok = r.returncode == 0 and not bad_sections
+                self.oblige(f"coqchk re-checks Props/{f}.vo and its dependencies (axioms of all loaded libraries: "
+                            f"{len(axioms)}; type-in-type / unsafe fixpoints / assumed positivity: none)", "coqchk", ok, summ[-1500:])
+                self.notes.append({f"coqchk axioms ({f})": axioms})
         return allok
 
     def coq_run(self, name, text, timeout=600):
